@@ -34,6 +34,10 @@ def run_standard(mod, ctx):
     tieb = vcore.tie_b_tables(ctx, mod.TABLES) if getattr(mod, "TABLES", None) else []
     if getattr(mod, "TABLES", None):
         ctx.log("Tie B: %d table obligations regenerated from the source, %d failed" % (len(mod.TABLES), len(tieb)))
+    if getattr(mod, "TIEB_SC", False):
+        t_sc = vcore.tie_b_sc(ctx)
+        ctx.log("Tie B: scalar limb code re-transcribed from the source, %s" % ("proofs hold" if not t_sc else "PROOFS BROKEN"))
+        tieb = tieb + t_sc
     rng = random.Random(ctx.seed)
     cfgs = mod.configs(ctx.tier)
     if hasattr(mod, "gen"):
@@ -83,7 +87,7 @@ def run_standard(mod, ctx):
         mod.extra(ctx, rng)
     for (name, log) in tieb:
         # the table in the source is no longer the table the theorems are about; the correspondence above was the search for a concrete failing input
-        vcore.report(ctx, "tieB:table", {"theorem": "Sodium.Generated." + name, "what": "a constant table regenerated from /repo's source differs from the model's table (kernel obligation failed)",
+        vcore.report(ctx, "tieB", {"theorem": name if name.startswith("Sodium.") or name == "translator" else "Sodium.Generated." + name, "what": "a model part regenerated from /repo's current source no longer satisfies its kernel-checked obligation",
                                          "log": log[-1200:], "concrete_inputs": "see the other replay files of this run" if ctx.violations else None}, no_input=not ctx.violations)
     vcore.write_evidence(ctx, mod.LEVEL, mod.RULE, getattr(mod, "evidence_extra", lambda c: None)(ctx),
                          getattr(mod, "ASSUMPTIONS", []))
